@@ -39,7 +39,7 @@ func init() {
 			"a valid claim that the chain rejects (e.g. supply limit reached after a parameter change) is counted, not judged",
 			"coins an account receives as designated recipient are its own: a contract whose recipient is the escrow account itself satisfies C03 when the claim nets to zero (judged by C04)",
 		},
-		Cases: func(t string) int { return tierN(t, 6, 64) },
+		Cases: func(t string) int { return tierN(t, 16, 64) },
 		Run:   func(run *ev.Run, c int) { runHTLC(run, c, "C03") },
 	})
 	Register(&Spec{
@@ -51,7 +51,7 @@ func init() {
 			"limit periods are the tumbling windows the module's reset defines: elapsed block time accumulates per block and the window ends at the first block begin at which it reaches the period",
 			"direct bank transfers to the escrow account are outside the quantifier (create/claim/expire histories) and are not generated",
 		},
-		Cases: func(t string) int { return tierN(t, 6, 64) },
+		Cases: func(t string) int { return tierN(t, 16, 64) },
 		Run:   func(run *ev.Run, c int) { runHTLC(run, c, "C04") },
 	})
 }
